@@ -1814,6 +1814,7 @@ class Interp:
                 m = m.store(lift(x[0], st), lift(x[1], st))
             return st.alloc('dict', map=m)
         from .models import used
+        from .values import FA
         used(self, 'dict comprehension: the mapping of the (key, value) pairs in order, a later pair overwriting an earlier one')
         m = SymMap.fresh(st, 'dcomp')
         wit = st.fresh_func('dcomp_wit', PyV, IntS)
